@@ -174,6 +174,9 @@ def uBody (cfg : Cfg) (s : St) (p : Nat) : St :=
       | none =>
           if cfg.futWaits ∧ (s.futs f).deploying = true ∧ (s.futs f).evSet = false then setPc s1 p (.uFWait f e)
           else setPc (setEvent s1 e) p .done      -- FutureConnector.undeploy does nothing; events_map[D].set()
+  | some _, none, some e =>
+      -- `discard`, `events_map[D].clear()`, then `self.deployments_map[D]` raises KeyError
+      setPc { s with evs := fun k => if k = e then false else s.evs k, dg := some false } p .failed
   | _, _, _ => setPc s p .failed                 -- KeyError
 
 def useStart (s : St) (p : Nat) : St :=
@@ -244,7 +247,10 @@ def step (cfg : Cfg) (s : St) : Act → Option St
       match s.pc p with
       | .dConn o =>
           match s.evmap with
-          | some e => some (setPc (setEvent (setObj { s with depmap := none } o { s.objs o with dep := .failed }) e) p .failed)
+          | some e =>
+              -- `self.deployments_map.pop(D)` raises KeyError when a concurrent undeploy removed the entry: no `set()`
+              if s.depmap.isNone then some (setPc (setObj s o { s.objs o with dep := .failed }) p .failed)
+              else some (setPc (setEvent (setObj { s with depmap := none } o { s.objs o with dep := .failed }) e) p .failed)
           | none => none
       | .fConn f o =>
           some (setPc (wakeFut (setFut (setObj s o { s.objs o with dep := .failed }) f { s.futs f with evSet := true }) f) p .failed)
